@@ -14,6 +14,7 @@ import os
 import pathlib
 import random
 import re
+import shutil
 import sys
 import time
 import warnings
@@ -63,7 +64,14 @@ class FakeExecutor:
 
         self.futures, self.ran = [], 0
         self._lock = threading.RLock()
-        self._timer = None
+        self._helper, self._last, self._closed = None, 0.0, False
+
+    def _idle_drain(self):
+        while not self._closed:
+            time.sleep(0.02)
+            if time.monotonic() - self._last >= 0.02:
+                self._drain()
+                return
 
     def submit(self, fn, /, *args, **kwargs):
         import threading
@@ -72,12 +80,11 @@ class FakeExecutor:
         self.futures.append(f)
         # a caller that blocks in concurrent.futures.as_completed / wait never asks a future for its result, so the
         # tasks must also complete on their own: once no task has been submitted for a moment they are run (in the
-        # chosen completion order) on a helper thread
-        if self._timer is not None:
-            self._timer.cancel()
-        self._timer = threading.Timer(0.02, self._drain)
-        self._timer.daemon = True
-        self._timer.start()
+        # chosen completion order) on a helper thread (one per executor)
+        self._last = time.monotonic()
+        if self._helper is None or not self._helper.is_alive():
+            self._helper = threading.Thread(target=self._idle_drain, daemon=True)
+            self._helper.start()
         return f
 
     def map(self, fn, *iterables, timeout=None, chunksize=1):
@@ -101,6 +108,7 @@ class FakeExecutor:
 
     def shutdown(self, wait=True, cancel_futures=False):
         self._drain()
+        self._closed = True
 
     def __enter__(self):
         return self
@@ -158,7 +166,7 @@ def canon_image(names, lines):
     return {"names": list(names), "shape": shape, "lines": lines}
 
 
-def impl_result(data, params):
+def impl_result(data, params, bits=False):
     import numpy as np
 
     names = list(data.dtype.names or [])
@@ -167,6 +175,9 @@ def impl_result(data, params):
     lines = [[[core.orat(float(data[n][k, j])) for n in names] for j in range(data.shape[1])] for k in range(data.shape[0])]
     img = canon_image(names, lines)
     img["shape"] = list(data.shape)
+    if bits:  # the bit pattern of every value (sign of zero): see C04.written_bits
+        img["bits"] = [[["nan" if math.isnan(float(data[n][k, j])) else float(data[n][k, j]).hex() for n in names]
+                        for j in range(data.shape[1])] for k in range(data.shape[0])]
     p = {}
     for k, v in params.items():
         vs = list(v) if isinstance(v, (tuple, list, np.ndarray)) else [v]
@@ -202,6 +213,14 @@ def blank(res, und):
     return {**res, "params": p}
 
 
+HISTORY_SHARE = 0.17  # of the generated cases: histories of 2-4 calls, every call judged
+KEPT_MTIME_NS = 1_600_000_000 * 10 ** 9  # the instant "kept" modification times are set to
+
+
+def OPTION_CLASS(pcsv, vendor):
+    return {"nu": pcsv.NuOption, "ldr": pcsv.ThermoLDROption, "tofwerk": pcsv.TofwerkOption, "generic": pcsv.GenericOption}[vendor]
+
+
 PATTERNS = {"nu": r"line_\d+\.csv", "ldr": r"\w*_ldr_\d+\.csv", "tofwerk": r"\w+?([0-9.]+-\d\dh\d\dm\d\ds).*\.csv",
             "generic": r".*\.csv"}
 
@@ -209,7 +228,7 @@ PATTERNS = {"nu": r"line_\d+\.csv", "ldr": r"\w*_ldr_\d+\.csv", "tofwerk": r"\w+
 class C04(Prop):
     id = "C04"
     anchored = ["src/pewlib/io/csv.py"]
-    cases = {"quick": 1500, "thorough": 40000}
+    cases = {"quick": 1150, "thorough": 22000}
     rule = ("synthetic directories in the Nu / iCap LDR / TOFWERK / generic layouts (1..8 line files, numbers 9/10/11/100, "
             "plain / zero-padded / per-file (mixed) padding of the index, LDR sample names with digits and the lines of two "
             "samples in one directory, unequal lengths, 1..4 elements, distractor / hidden / directory entries, shuffled "
@@ -223,7 +242,17 @@ class C04(Prop):
             "of the real directory alone) plus batches of "
             "file names on which the model's matchers, filter, sort and the order its sort keys induce (which names have a "
             "key, how neighbouring keys compare) are compared with the real option.regex / option.filter / option.sort / "
-            "option.sortkey (TOFWERK: under 5 TZ settings) of the four options; non-trivial = at least two line files or a distractor; distinct by case hash")
+            "option.sortkey (TOFWERK: under 5 TZ settings) of the four options; 17% of the cases are HISTORIES of 2-4 calls in "
+            "one process, every call judged against the specification of the directory as it is on disk at that call: the same "
+            "path rewritten (other vendor layout / same file names with another header or other values / other line count, "
+            "modification times kept or not), a second path, the directory left unchanged, calls without an option "
+            "(option_for_path), with option_for_path's result, with one shared or a new option instance, load(path) without "
+            "full (made, not judged), the caller overwriting the returned image / params and editing attributes of its own "
+            "option instance or of the object option_for_path returned (the latter recorded only); the model side of a "
+            "history is the Lean world model (trace) run on the whole history; plus 64 deterministic histories; values with "
+            "a negative zero are compared bit for bit through cell identities; path given as Path or str, directory names "
+            "with dots / spaces / vendor-like / hidden; 14 time zones; indices of 5..21 digits; non-trivial = at least two "
+            "line files or a distractor or a judged history; distinct by case hash")
     trusted = [
         "np.genfromtxt parses a written table to the values float(token) (NaN for unparsable/empty tokens) and names the "
         "fields as the writer expects (spaces -> '_', quotes deleted for TOFWERK, empty -> f0); np.stack/np.delete/"
@@ -245,14 +274,20 @@ class C04(Prop):
         "or with a one-digit month / day (both accepted by time.strptime) is not judged; whether pewlib does what the model "
         "says there is only counted (feature stamp-out-of-domain:model-agrees / model-differs)",
         "an empty selection (no accepted file) is not compared (the property does not say what happens)",
-        "histories: the result of importing a directory does not depend on earlier imports made with the same option "
-        "object; what the earlier (primer) imports return or raise is not judged",
+        "histories: the result of importing a directory does not depend on earlier calls in the process (same or other "
+        "path, same or other option object, objects returned earlier and edited by the caller); an option object the caller "
+        "has edited is never passed to load again; a later call seeing the caller's edit of the object option_for_path "
+        "returned is recorded only (an implementation may hand out one shared instance per vendor)",
+        "an LDR directory in which every element column is empty (no element left in the image) is not judged",
     ]
 
     # ------------------------------------------------------------------ generation
     def generate(self, rng, tier):
-        if rng.random() < 0.08:
+        k = rng.random()
+        if k < 0.08:
             return self.gen_names(rng)
+        if k < 0.08 + HISTORY_SHARE:
+            return gen_csvdir.gen_history(rng, tier)
         return gen_csvdir.generate(rng, tier)
 
     def gen_names(self, rng):
@@ -312,6 +347,7 @@ class C04(Prop):
                     if c["vendor"] == vendor and not c["auto"] and want in c["gen_features"] and "k1" not in c["gen_features"]:
                         break
                 yield c
+        yield from gen_csvdir.targeted_histories()
         # the LDR key repaired by 0a523e4 (all digits of the stem -> sample name, integer index): mixed zero padding,
         # digits in the sample name, the lines of two samples, one sample in two letter cases; Nu with mixed padding
         for vendor, names, feats in (
@@ -321,7 +357,9 @@ class C04(Prop):
                 ("ldr", ["b_LDR_2.csv", "B_ldr_10.CSV", "a_ldr_11.csv", "b_ldr_009.csv"], ["two-samples", "sample-case-mix", "mixed-padding"]),
                 ("ldr", ["a_ldr_1_ldr_10.csv", "a_ldr_1_ldr_9.csv", "a_ldr_2.csv"], ["two-samples", "prefix-digits"]),
                 ("nu", ["line_10.csv", "line_007.csv", "LINE_9.CSV", "line_0100.csv"], ["mixed-padding"]),
-                ("nu", ["line_010.csv", "line_9.csv"], ["mixed-padding"])):
+                ("nu", ["line_010.csv", "line_9.csv"], ["mixed-padding"]),
+                ("nu", ["line_9007199254740993.csv", "line_9007199254740992.csv", "line_18446744073709551616.csv", "line_99999.csv"],
+                 ["index>=5digits"])):
             for rev in (False, True):
                 yield self.fixed_dir(vendor, list(reversed(names)) if rev else names, f"C04-targeted-pad-{names}", feats=feats + ["lex!=num"])
         # a stamp time.strptime rejects: the import raises (compared with the model); one-digit month and day
@@ -359,23 +397,54 @@ class C04(Prop):
             yield {"kind": "names", "names": [f"I_{gen_csvdir.stamp(date, s)}.csv" for s in range(0, 86400, step)]}
 
     # ------------------------------------------------------------------ evaluation
-    def evaluate(self, case, ctx):
-        if case["kind"] == "names":
-            return self.eval_names(case, ctx)
-        import pewlib.io.csv as pcsv
-
-        vendor, entries = case["vendor"], case["entries"]
-        d = ctx.tmpdir() / "lines"
-        d.mkdir()
-        gen_csvdir.write_dir(d, case)
-        dentries = []
+    @staticmethod
+    def driver_entries(entries):
+        out = []
         for e in entries:
             if e["role"] == "line":
-                dentries.append({"name": e["name"], "isFile": True, "names": e["names"],
-                                 "rows": [[core.orat(gen_csvdir.value_of(t)) for t in r] for r in e["rows"]]})
+                out.append({"name": e["name"], "isFile": True, "names": e["names"],
+                            "rows": [[core.orat(gen_csvdir.value_of(t)) for t in r] for r in e["rows"]]})
             else:
+                out.append({"name": e["name"], "isFile": e["type"] == "file", "names": [], "rows": []})
+        return out
+
+    @staticmethod
+    def written_bits(ctx, vendor, entries, pi):
+        """'every value exactly as written', to the bit: the specification (and the mechanism model) evaluated on CELL
+        IDENTITIES instead of values - every non-NaN cell of the written tables gets its own number - says for each cell of
+        the result which written token it must be; the canonical form is float(token).hex() (keeps the sign of a zero,
+        which the exact rationals of the main comparison cannot)"""
+        ids, dentries = {}, []
+        for e in entries:
+            if e["role"] != "line":
                 dentries.append({"name": e["name"], "isFile": e["type"] == "file", "names": [], "rows": []})
-        rep = ctx.driver.call("c04.load", vendor="auto" if case["auto"] else vendor, entries=dentries, pi=case["pi"])
+                continue
+            rows = []
+            for r in e["rows"]:
+                row = []
+                for t in r:
+                    v = gen_csvdir.value_of(t)
+                    if math.isnan(v):
+                        row.append(None)
+                    else:
+                        ids[len(ids) + 1] = v
+                        row.append(len(ids))
+                rows.append(row)
+            dentries.append({"name": e["name"], "isFile": True, "names": e["names"], "rows": rows})
+        rep = ctx.driver.call("c04.cells", vendor=vendor, entries=dentries, pi=pi)
+
+        def bits(r):
+            if "raises" in r:
+                return None
+            return [[["nan" if c is None else float(ids[int(core.unrat(c))]).hex() for c in row] for row in line] for line in r["image"]["lines"]]
+        return bits(rep["model"]), bits(rep["spec"])
+
+    def import_once(self, pcsv, ctx, d, dirc, call, option, pi, tz, path_as="path"):
+        """one judged call of load(d, ..., full=True) on the directory `dirc` as it is on disk at `d`:
+        -> (impl, model, spec, rep, data, params)"""
+        vendor, entries = dirc["vendor"], dirc["entries"]
+        auto = call in ("auto", "detected")
+        rep = ctx.driver.call("c04.load", vendor="auto" if auto else vendor, entries=self.driver_entries(entries), pi=pi)
         lines = [e["name"] for e in entries if e["role"] == "line"]
         if sorted(rep["accepted"]) != sorted(lines):
             raise InternalError(f"generator: accepted {rep['accepted']} != line files {lines}")
@@ -384,9 +453,60 @@ class C04(Prop):
         model, und = driver_result(rep["model"])
         spec, und2 = driver_result(rep["spec"])
         und |= und2
+        negzero = any(t.lstrip().startswith("-") and gen_csvdir.value_of(t) == 0.0 for e in entries if e["role"] == "line"
+                      for r in e["rows"] for t in r)
+        if negzero:
+            mb, sb = self.written_bits(ctx, rep["vendor"], entries, pi)
+            if "image" in model:
+                model["image"]["bits"] = mb
+            if "image" in spec:
+                spec["image"]["bits"] = sb
+        data = params = None
+        with substitutions(d, [e["name"] for e in entries], pi, tz), warnings.catch_warnings():
+            warnings.simplefilter("ignore")
+            try:
+                arg = str(d) + ("/" if path_as == "str/" else "") if path_as.startswith("str") else d
+                if call == "detected":
+                    option = pcsv.option_for_path(arg)
+                data, params = pcsv.load(arg, option=option, full=True)
+                impl = impl_result(data, params, bits=negzero)
+            except Exception as e:
+                impl = {"raises": type(e).__name__, "msg": str(e)[:200]}
+        if "msg" in impl and impl["raises"] == model.get("raises"):
+            impl = {"raises": impl["raises"]}
+        impl, model, spec = blank(impl, und), blank(model, und), blank(spec, und)
+        rep = {**rep, "und": bool(und), "und_set": und, "negzero": negzero, "option": option}
+        return impl, model, spec, rep, data, params
 
-        option = None if case["auto"] else {"nu": pcsv.NuOption, "ldr": pcsv.ThermoLDROption, "tofwerk": pcsv.TofwerkOption,
-                                            "generic": pcsv.GenericOption}[vendor]()
+    @staticmethod
+    def no_element_left(spec):
+        """every element column is empty in every line (LDR drops them all): an image without a single element is outside
+        the property's quantifier (1..k elements); what pewlib returns for it - an array without fields, an exception - is
+        not judged"""
+        return isinstance(spec, dict) and "image" in spec and not spec["image"]["names"]
+
+    @staticmethod
+    def out_of_domain(rep):
+        # a stamp that is no valid date / a leap second / a month or day written with one digit (not what the instrument
+        # writes): the property does not say what the import does with such a directory (time.strptime rejects the first
+        # and accepts the others; another parser, or the stamp text as key, may differ), so the import is not judged
+        return not (rep["keys_defined"] and rep["valid_stamps"] and rep["strict_stamps"])
+
+    def evaluate(self, case, ctx):
+        if case["kind"] == "names":
+            return self.eval_names(case, ctx)
+        if case["kind"] == "history":
+            return self.eval_history(case, ctx)
+        import pewlib.io.csv as pcsv
+
+        vendor, entries = case["vendor"], case["entries"]
+        # the directory is "lines" under the per-process root (the same path for every case of a worker) unless the case
+        # names it otherwise (a name with spaces / dots / digits / a vendor-like or hidden name)
+        d = ctx.tmpdir() / case.get("dirname", "lines")
+        d.mkdir()
+        gen_csvdir.write_dir(d, case)
+        lines = [e["name"] for e in entries if e["role"] == "line"]
+        option = None if case["auto"] else OPTION_CLASS(pcsv, vendor)()
         # history: earlier imports through the SAME option object (auto-detection: earlier imports in the same process);
         # what they return or raise is not judged, only the import of the real directory that follows them is
         primers = case.get("primers", [])
@@ -405,16 +525,8 @@ class C04(Prop):
                     pcsv.load(pd, option=option, full=True)
                 except Exception:
                     pass
-        with substitutions(d, [e["name"] for e in entries], case["pi"], case["tz"]), warnings.catch_warnings():
-            warnings.simplefilter("ignore")
-            try:
-                data, params = pcsv.load(d, option=option, full=True)
-                impl = impl_result(data, params)
-            except Exception as e:
-                impl = {"raises": type(e).__name__, "msg": str(e)[:200]}
-        if "msg" in impl and impl["raises"] == model.get("raises"):
-            impl = {"raises": impl["raises"]}
-        impl, model, spec = blank(impl, und), blank(model, und), blank(spec, und)
+        impl, model, spec, rep, _, _ = self.import_once(pcsv, ctx, d, case, "auto" if case["auto"] else "shared", option,
+                                                         case["pi"], case["tz"], case.get("path_as", "path"))
 
         n = len(lines)
         feats = set(case.get("gen_features", [])) | {f"vendor:{vendor}", "n1" if n == 1 else "n2" if n == 2 else "n>=3",
@@ -423,22 +535,222 @@ class C04(Prop):
             feats.add("completion!=submission")
         if lines != rep["order"]:
             feats.add("listing!=acquisition")
-        if und:
+        if rep["und"]:
             feats.add("param-near-rounding-tie")
+        if rep["negzero"]:
+            feats.add("negative-zero-bits")
+        if case.get("path_as", "path") != "path":
+            feats.add("path-as-str")
+        if case.get("dirname", "lines") != "lines":
+            feats.add("other-directory-name")
+        feats |= self.length_features(entries, rep["order"])
         if primers:
             feats.add("history-auto" if case["auto"] else "history-shared-option")
         else:
             feats = {f for f in feats if not f.startswith(("primer-", "two-primers"))}
         empty = not lines
+        if self.no_element_left(spec):
+            empty = True
+            feats.add("no-element-left-unjudged")
         nontrivial = n >= 2 or any(e["role"] != "line" for e in entries)
-        if not (rep["keys_defined"] and rep["valid_stamps"] and rep["strict_stamps"]):
-            # a stamp that is no valid date / a leap second / a month or day written with one digit (not what the instrument
-            # writes): the property does not say what the import does with such a directory (time.strptime rejects the
-            # first and accepts the others; another parser, or the stamp text as key, may differ), so the case is not judged; whether pewlib does what the model says (ValueError exactly when time.strptime rejects a
-            # stamp) is recorded as a feature only
+        if self.out_of_domain(rep):
+            # whether pewlib does what the model says (ValueError exactly when time.strptime rejects a stamp) is recorded only
             feats.add("stamp-out-of-domain:" + ("model-agrees" if core.canon(impl) == core.canon(model) else "model-differs"))
             return outcome(impl, model, spec, undetermined=True, hyp=False, features=feats if nontrivial else [])
         return outcome(impl, model, spec, undetermined=empty, hyp=rep["hyp"], features=feats if nontrivial else [])
+
+    @staticmethod
+    def length_features(entries, order):
+        """where the shortest line stands in acquisition order"""
+        by = {e["name"]: len(e["rows"]) for e in entries if e["role"] == "line"}
+        ls = [by[nm] for nm in order if nm in by]
+        if len(ls) < 2 or len(set(ls)) == 1:
+            return set()
+        m, out = min(ls), set()
+        if ls.count(m) == 1:
+            i = ls.index(m)
+            out.add("shortest-first" if i == 0 else "shortest-last" if i == len(ls) - 1 else "shortest-middle")
+        return out
+
+    # ------------------------------------------------------------------ histories, every import judged
+    @staticmethod
+    def rewrite_dir(d, dirc, mtime):
+        """the directory at path `d` is emptied (the directory itself stays) and written anew"""
+        if d.exists():
+            for q in list(d.iterdir()):
+                if q.is_dir() and not q.is_symlink():
+                    shutil.rmtree(q)
+                else:
+                    q.unlink()
+        else:
+            d.mkdir()
+        gen_csvdir.write_dir(d, dirc)
+        if mtime == "kept":
+            for q in list(d.iterdir()) + [d]:
+                os.utime(q, ns=(KEPT_MTIME_NS, KEPT_MTIME_NS))
+
+    def eval_history(self, case, ctx, skip_library_edits=False):
+        import numpy as np
+        import pewlib.io.csv as pcsv
+
+        root = ctx.tmpdir()
+        content, shared, dirty, saved = {}, {}, set(), []
+        impl, model, spec, feats = [], [], [], set(case.get("gen_features", [])) | {"history", "tz:" + case["tz"]}
+        hyp, seen, calls, judged = True, [], [], 0
+        # the same history as calls of the Lean world model (PewModel.CsvDir.Call): paths 0 / 1, option objects by the
+        # order in which the caller obtained them
+        hcalls, optidx, pathidx, und_at, pos_of = [], {}, {"lines": 0, "b": 1}, {}, {}
+
+        def hold(o, call):
+            hcalls.append(call)
+            optidx[id(o)] = len(optidx)
+            keep.append(o)
+            return optidx[id(o)]
+
+        keep = []  # (the objects stay alive: id() must not be reused)
+
+        def edit_option(o, dirc):
+            """what a caller may do to an option object it holds; undone after the history (an object that the library
+            shares between calls must not carry the edit into later cases)"""
+            saved.append((o, {k: (v, list(v) if isinstance(v, list) else dict(v) if isinstance(v, dict) else None)
+                              for k, v in vars(o).items()}))
+            els = [nm for e in dirc["entries"] if e["role"] == "line" for nm in e["names"]]
+            if isinstance(getattr(o, "drop_names", None), list):
+                o.drop_names.extend(els[-2:])
+                if o.drop_names and len(els) % 2:
+                    del o.drop_names[0]
+            if isinstance(getattr(o, "kw_genfromtxt", None), dict):
+                o.kw_genfromtxt["skip_header"] = 1
+                o.kw_genfromtxt["usecols"] = (0,)
+            for flag in ("drop_nan_rows", "drop_nan_columns"):
+                if isinstance(getattr(o, flag, None), bool):
+                    setattr(o, flag, not getattr(o, flag))
+            if hasattr(o, "regex"):
+                o.regex = re.compile(r"never-\d+\.csv")
+            dirty.add(id(o))
+            hcalls.append({"c": "edit", "i": optidx[id(o)], "drop": els[-2:]})
+
+        try:
+            for i, st in enumerate(case["steps"]):
+                d = root / st["slot"]
+                if "dir" in st:
+                    self.rewrite_dir(d, st["dir"], st.get("mtime", "natural"))
+                    content[st["slot"]] = st["dir"]
+                    hcalls.append({"c": "write", "p": pathidx[st["slot"]], "entries": self.driver_entries(st["dir"]["entries"])})
+                dirc = content.get(st["slot"])
+                if dirc is None:  # (a shrunk case: the step that wrote this path is gone)
+                    continue
+                vendor, call = dirc["vendor"], st["call"]
+                nlines = sum(e["role"] == "line" for e in dirc["entries"])
+                pi = [x for x in st["pi"] if x < nlines] + [x for x in range(nlines) if x not in st["pi"]]
+                if call == "auto-nofull":  # not an observation point: the call is made, nothing is judged
+                    with substitutions(d, [e["name"] for e in dirc["entries"]], pi, case["tz"]), warnings.catch_warnings():
+                        warnings.simplefilter("ignore")
+                        try:
+                            pcsv.load(d)
+                        except Exception:
+                            pass
+                    feats.add("call:auto-nofull-unjudged")
+                    hcalls.append({"c": "auto", "p": pathidx[st["slot"]], "pi": pi})
+                    continue
+                option = None
+                if call == "shared":
+                    if vendor not in shared or id(shared[vendor]) in dirty:
+                        shared[vendor] = OPTION_CLASS(pcsv, vendor)()
+                        hold(shared[vendor], {"c": "new", "vendor": vendor})
+                    option = shared[vendor]
+                elif call == "fresh":
+                    option = OPTION_CLASS(pcsv, vendor)()
+                    hold(option, {"c": "new", "vendor": vendor})
+                im, mo, sp, rep, data, params = self.import_once(pcsv, ctx, d, dirc, call, option, pi, case["tz"])
+                if call == "detected" and rep["option"] is not None:
+                    hold(rep["option"], {"c": "detect", "p": pathidx[st["slot"]]})
+                if call == "auto":
+                    hcalls.append({"c": "auto", "p": pathidx[st["slot"]], "pi": pi})
+                elif id(rep["option"]) in optidx:
+                    hcalls.append({"c": "with", "i": optidx[id(rep["option"])], "p": pathidx[st["slot"]], "pi": pi})
+                else:  # option_for_path itself raised: there is no object to import with
+                    hcalls.append({"c": "auto", "p": pathidx[st["slot"]], "pi": pi})
+                pos_of[len(impl)] = (len(hcalls) - 1, rep["und_set"], mo.get("image", {}).get("bits") if isinstance(mo, dict) else None)
+                tag = {"step": i, "path": st["slot"], "call": call}
+                if self.out_of_domain(rep) or nlines == 0 or self.no_element_left(sp):
+                    im = mo = sp = {"not-judged": True}
+                    feats.add("history-step-unjudged")
+                else:
+                    judged += 1
+                hyp = hyp and rep["hyp"]
+                impl.append({**tag, **im}), model.append({**tag, **mo}), spec.append({**tag, **sp})
+                feats |= {"call:" + call, "vendor:" + vendor}
+                if rep["und"]:
+                    feats.add("param-near-rounding-tie")
+                if rep["negzero"]:
+                    feats.add("negative-zero-bits")
+                if (st["slot"], vendor) in seen:
+                    feats.add("hist:same-vendor-again")
+                elif any(s == st["slot"] for s, _ in seen):
+                    feats.add("hist:other-vendor-same-path")
+                if call in ("auto", "detected") and any(c in ("auto", "detected") and v != vendor for (_, v), c in zip(seen, calls)):
+                    feats.add("hist:auto-after-auto-other-vendor")
+                seen.append((st["slot"], vendor))
+                calls.append(call)
+                # the caller edits what the call returned
+                for ed in st.get("edits", []):
+                    if ed == "image" and data is not None:
+                        try:
+                            for nm in data.dtype.names or []:
+                                data[nm][...] = -7.25
+                            feats.add("edit:returned-image")
+                        except ValueError:  # a read-only array cannot be edited: nothing to do
+                            pass
+                    elif ed == "params" and isinstance(params, dict):
+                        params.clear()
+                        params.update(scantime=-1.0, spotsize=(9.0, 9.0), junk=[1])
+                        feats.add("edit:returned-params")
+                    elif ed == "own-option" and option is not None and call in ("shared", "fresh"):
+                        edit_option(option, dirc)
+                        feats.add("edit:own-option")
+                    elif ed == "library-option" and not skip_library_edits:
+                        with substitutions(d, [e["name"] for e in dirc["entries"]], pi, case["tz"]):
+                            o = rep["option"] if call == "detected" else pcsv.option_for_path(d)
+                        if id(o) not in optidx:
+                            hold(o, {"c": "detect", "p": pathidx[st["slot"]]})
+                        edit_option(o, dirc)
+                        feats.add("edit:library-option")
+        finally:
+            for o, attrs in reversed(saved):
+                for k, (v, copy) in attrs.items():
+                    if isinstance(v, list):
+                        v[:] = copy
+                    elif isinstance(v, dict):
+                        v.clear()
+                        v.update(copy)
+                    setattr(o, k, v)
+        # the model side of a history: the Lean world model run on the whole history (`trace`), not call by call
+        if hcalls:
+            results = ctx.driver.call("c04.history", calls=hcalls)["results"]
+            for k, (pos, und, bits) in pos_of.items():
+                if model[k].get("not-judged"):
+                    continue
+                r = results[pos]
+                if r is None:
+                    raise InternalError(f"history model: call {pos} is no import")
+                m, _ = driver_result(r)
+                if bits is not None and "image" in m:
+                    m["image"]["bits"] = bits
+                model[k] = {**{t: model[k][t] for t in ("step", "path", "call")}, **blank(m, und)}
+        feats.add(f"history-judged:{min(judged, 4)}")
+        out = outcome({"steps": impl}, {"steps": model}, {"steps": spec}, undetermined=judged == 0, hyp=hyp,
+                      features=feats if judged else [])
+        if not out["spec_ok"] and not skip_library_edits and "edit:library-option" in feats:
+            # The caller changed attributes of the object option_for_path RETURNED.  Whether a later import may see that
+            # (an implementation may hand out one shared instance per vendor) is behaviour no clause of the property
+            # speaks about: if the history agrees with the specification once these edits are left out, the difference
+            # is recorded only.
+            again = self.eval_history(case, ctx, skip_library_edits=True)
+            if again["spec_ok"]:
+                return outcome(out["impl"], out["model"], out["spec"], undetermined=True, hyp=hyp,
+                               features=set(out["features"]) | {"recorded:library-option-edit-visible-later"})
+        return out
 
     def eval_names(self, case, ctx):
         """the model's matchers, filter, sort and the ORDER its sort keys induce against the real option objects.
@@ -562,6 +874,9 @@ class C04(Prop):
                 for i in range(len(ns)):
                     yield {**case, "names": ns[:i] + ns[i + 1:]}
             return
+        if case["kind"] == "history":
+            yield from self.shrink_history(case)
+            return
         ents = case["entries"]
         nlines = sum(e["role"] == "line" for e in ents)
         prs = case.get("primers", [])
@@ -584,12 +899,52 @@ class C04(Prop):
                 yield {**case, "entries": ents[:i] + ents[i + 1:], "pi": [p for p in case["pi"] if p < nlines - 1]}
         if case["pi"] != sorted(case["pi"]):
             yield {**case, "pi": sorted(case["pi"])}
+        for fld in ("dirname", "path_as"):
+            if fld in case:
+                yield {k: v for k, v in case.items() if k != fld}
         if case["tz"] != "UTC":
             yield {**case, "tz": "UTC"}
         first = 1 if case["vendor"] == "ldr" else 0
         for i, e in enumerate(ents):
             if e["role"] == "line" and len(e["rows"]) > 2 + first:
                 yield {**case, "entries": ents[:i] + [{**e, "rows": e["rows"][:-1]}] + ents[i + 1:]}
+
+
+    def shrink_history(self, case):
+        steps = case["steps"]
+        for i, st in enumerate(steps):  # drop a step (the directory it wrote goes to the next step on that path)
+            if len(steps) > 1:
+                rest = [dict(x) for x in steps[:i] + steps[i + 1:]]
+                if "dir" in st:
+                    for x in rest[i:]:
+                        if x["slot"] == st["slot"]:
+                            if "dir" not in x:
+                                x["dir"], x["mtime"] = st["dir"], st.get("mtime", "natural")
+                            break
+                yield {**case, "steps": rest}
+        for i, st in enumerate(steps):
+            def put(new):
+                return {**case, "steps": steps[:i] + [new] + steps[i + 1:]}
+            for ed in st.get("edits", []):
+                yield put({**st, "edits": [x for x in st["edits"] if x != ed]})
+            if st.get("mtime") == "kept":
+                yield put({**st, "mtime": "natural"})
+            if st["call"] != "auto":
+                yield put({**st, "call": "auto"})
+            if st["pi"] != sorted(st["pi"]):
+                yield put({**st, "pi": sorted(st["pi"])})
+            if "dir" in st:
+                ents = st["dir"]["entries"]
+                nl = sum(e["role"] == "line" for e in ents)
+                first = 1 if st["dir"]["vendor"] == "ldr" else 0
+                for j, e in enumerate(ents):
+                    if e["role"] != "line" or nl > 1:
+                        yield put({**st, "dir": {**st["dir"], "entries": ents[:j] + ents[j + 1:]}})
+                for j, e in enumerate(ents):
+                    if e["role"] == "line" and len(e["rows"]) > 2 + first:
+                        yield put({**st, "dir": {**st["dir"], "entries": ents[:j] + [{**e, "rows": e["rows"][:-1]}] + ents[j + 1:]}})
+        if case["tz"] != "UTC":
+            yield {**case, "tz": "UTC"}
 
 
 PROP = C04()
